@@ -23,6 +23,26 @@ func rowClass(sl *SliceV) *Term {
 	return ufun("cls.row", []string{SInt, SInt, SInt}, SInt, sl.Base, sl.Off, sl.Len)
 }
 
+// valueClass: the key class of a single octosql.Value (same symbol as the btree theory uses for value-keyed items).
+func valueClass(v SV) *Term {
+	var ls []*Term
+	leaves(v, &ls)
+	var sorts []string
+	for _, l := range ls {
+		sorts = append(sorts, l.Sort)
+	}
+	return ufun("cls.value", sorts, SInt, ls...)
+}
+
+func mapKeyClass(k SV) *Term {
+	if sl, ok := k.(*SliceV); ok {
+		return rowClass(sl)
+	}
+	return valueClass(k)
+}
+
+const keyMapSize = "C|hashmap|size"
+
 func (e *Exec) frontier(st *BState) *Term {
 	if v, ok := st.ghost["$frontier"]; ok {
 		return scal(v)
@@ -52,26 +72,39 @@ func (e *Exec) containerCall(st *BState, x *ssa.Call, f *ssa.Function, args []SV
 		m := e.allocAddr(st)
 		has := e.heapArr(st, keyMapHas, arrSort(SInt, sortArrIB))
 		st.heap[keyMapHas] = sto(has, m, mk(sortArrIB, "((as const "+sortArrIB+") false)"))
+		st.heap[keyMapSize] = sto(e.heapArr(st, keyMapSize, sortArrII), m, intLit(0))
 		return &PtrV{Ty: x.Type(), Addr: m}, true
+	case isHashmapMethod(f, "Size"):
+		m := args[0].(*PtrV).Addr
+		sz := sel(e.heapArr(st, keyMapSize, sortArrII), m, SInt)
+		nbound++
+		k := mk(SInt, fmt.Sprintf("k!q%d", nbound))
+		hasK := sel(sel(e.heapArr(st, keyMapHas, arrSort(SInt, sortArrIB)), m, sortArrIB), k, SBool)
+		e.assume(implies(st.reach, and(le(intLit(0), sz), le(sz, bigLit("MAX64")), eq(eq(sz, intLit(0)), mk(SBool, "forall", mk("binder", "(("+k.Op+" Int))"), not(hasK))))))
+		return intSV(sz), true
 	case isHashmapMethod(f, "Get"):
 		m := args[0].(*PtrV).Addr
-		c := rowClass(args[1].(*SliceV))
+		c := mapKeyClass(args[1])
 		has := sel(sel(e.heapArr(st, keyMapHas, arrSort(SInt, sortArrIB)), m, sortArrIB), c, SBool)
 		val := sel(sel(e.heapArr(st, keyMapVal, arrSort(SInt, sortArrII)), m, sortArrII), c, SInt)
 		tup := x.Type().(*types.Tuple)
 		return &TupleV{Elems: []SV{&PtrV{Ty: tup.At(0).Type(), Addr: ite(has, val, intLit(0))}, boolSV(has)}}, true
 	case isHashmapMethod(f, "Put"):
 		m := args[0].(*PtrV).Addr
-		c := rowClass(args[1].(*SliceV))
+		c := mapKeyClass(args[1])
 		hasA := e.heapArr(st, keyMapHas, arrSort(SInt, sortArrIB))
 		valA := e.heapArr(st, keyMapVal, arrSort(SInt, sortArrII))
+		szA := e.heapArr(st, keyMapSize, sortArrII)
+		st.heap[keyMapSize] = sto(szA, m, add(sel(szA, m, SInt), ite(sel(sel(hasA, m, sortArrIB), c, SBool), intLit(0), intLit(1))))
 		st.heap[keyMapHas] = sto(hasA, m, sto(sel(hasA, m, sortArrIB), c, tTrue))
 		st.heap[keyMapVal] = sto(valA, m, sto(sel(valA, m, sortArrII), c, args[2].(*PtrV).Addr))
 		return &TupleV{}, true
 	case isHashmapMethod(f, "Remove"):
 		m := args[0].(*PtrV).Addr
-		c := rowClass(args[1].(*SliceV))
+		c := mapKeyClass(args[1])
 		hasA := e.heapArr(st, keyMapHas, arrSort(SInt, sortArrIB))
+		szA := e.heapArr(st, keyMapSize, sortArrII)
+		st.heap[keyMapSize] = sto(szA, m, sub(sel(szA, m, SInt), ite(sel(sel(hasA, m, sortArrIB), c, SBool), intLit(1), intLit(0))))
 		st.heap[keyMapHas] = sto(hasA, m, sto(sel(hasA, m, sortArrIB), c, tFalse))
 		return &TupleV{}, true
 	}
@@ -120,7 +153,9 @@ func (env *SpecEnv) containerSpec(name string, n *ast.CallExpr) (SV, bool) {
 	case "addr":
 		return intSV(env.eval(n.Args[0]).(*PtrV).Addr), true
 	case "cls":
-		return intSV(rowClass(env.eval(n.Args[0]).(*SliceV))), true
+		return intSV(mapKeyClass(env.eval(n.Args[0]))), true
+	case "msize":
+		return intSV(sel(e.heapArr(st, keyMapSize, sortArrII), env.eval(n.Args[0]).(*PtrV).Addr, SInt)), true
 	}
 	return nil, false
 }
